@@ -15,6 +15,7 @@ package main
 
 import (
 	"bytes"
+	"crypto/sha3"
 	"fmt"
 	"os"
 	"strings"
@@ -177,7 +178,14 @@ func caseText(c *niCase, comp compiler.Name, variant int, cs ctxSpec, which int,
 // checkOne compares implementation, model and the property's expectation on one
 // (context, statement, proof) triple.  expect: "1" must accept, "0" must reject.
 func (h *harness) checkOne(class string, c *niCase, comp compiler.Name, variant int, cs ctxSpec, which int, proof []byte, orig *decoded, expect string) {
+	h.checkOneKey(class, "", c, comp, variant, cs, which, proof, orig, expect)
+}
+
+func (h *harness) checkOneKey(class, fixedKey string, c *niCase, comp compiler.Name, variant int, cs ctxSpec, which int, proof []byte, orig *decoded, expect string) {
 	key := class + "/" + short(comp) + "/" + c.id
+	if fixedKey != "" {
+		key = fixedKey
+	}
 	ct := caseText(c, comp, variant, cs, which, proof)
 	t0 := time.Now()
 	got := implVerdict(c, comp, cs, which, proof)
@@ -375,11 +383,60 @@ func (h *harness) niCase(c *niCase, comp compiler.Name, variant int, r *vh.Rng, 
 		}
 		h.checkOne("structure-"+k, c, comp, variant, cs, 0, p2, orig, want)
 	}
+	if comp == randfischlin.Name {
+		h.leadingZeros(c, variant, cs, proof, orig)
+	}
 	// forged Fiat–Shamir proofs: a simulated transcript whose challenge was derived without
 	// the commitment / without the statement / in no transcript at all must be rejected
 	if comp == fiatshamir.Name {
 		h.forgeries(c, variant, cs, r)
 	}
+}
+
+// leadingZeros: randomised Fischlin transmits each challenge as a byte string that the
+// verifier hands to the sigma verifier unchanged; a sigma verifier that reads it as a
+// big-endian integer (Maurer's) gives the same verdict for 0^k ‖ e_i, while the hash target
+// is recomputed over the new bytes and still hit with probability 2^-8.  The harness
+// searches (repetition, k) whose digest hits the target (own SHA3 over the model's framing,
+// only to pick candidates) and submits the re-encoded proof: a proof with a changed decoded
+// challenge must be rejected.
+func (h *harness) leadingZeros(c *niCase, variant int, cs ctxSpec, proof []byte, orig *decoded) {
+	if h.modelVerdict(c, randfischlin.Name, cs, 0, orig) != "1" || len(h.m.lastX) == 0 {
+		return
+	}
+	x := h.m.lastX[0]
+	n := 32
+	crs := cshake(vh.UnHex(x[0]), vh.UnHex(x[1]), n)
+	var aall []byte
+	for _, a := range orig.a {
+		aall = append(aall, a...)
+	}
+	maxK := 24
+	if h.thorough || h.a.Search {
+		maxK = 200
+	}
+	for k := 1; k <= maxK; k++ {
+		for i := range orig.e {
+			e2 := append(make([]byte, k), orig.e[i]...)
+			var buf []byte
+			for idx, part := range [][]byte{crs, aall, le64(uint64(i)), e2, orig.z[i]} {
+				buf = append(buf, le64(uint64(idx))...)
+				buf = append(buf, le64(uint64(len(part)))...)
+				buf = append(buf, part...)
+			}
+			d := sha3.Sum256(buf)
+			if d[0] != 0 {
+				continue
+			}
+			p2 := c.withChallenge(randfischlin.Name, orig, i, e2)
+			if p2 == nil {
+				continue
+			}
+			h.checkOneKey("challenge-leading-zeros", "randfischlin-challenge-leading-zeros", c, randfischlin.Name, variant, cs, 0, p2, orig, "0")
+			return
+		}
+	}
+	h.res.Distribution["challenge-leading-zeros/no-candidate"]++
 }
 
 func sortedKeys(m map[string][]byte) []string {
